@@ -292,6 +292,7 @@ type traits struct {
 	nonNameKey  bool
 	invalidUTF8 bool
 	symbol, vr  bool
+	containers  int
 }
 
 func needsEscape(s string) bool {
@@ -333,6 +334,7 @@ func scan(v hx.Val, d int, tr *traits) {
 	case "var":
 		tr.vr = true
 	case "list":
+		tr.containers++
 		if len(v.L) == 0 {
 			tr.emptyCont = true
 		}
@@ -344,6 +346,7 @@ func scan(v hx.Val, d int, tr *traits) {
 			scan(e, d+1, tr)
 		}
 	case "map":
+		tr.containers++
 		if len(v.M) == 0 {
 			tr.emptyCont = true
 		}
@@ -447,9 +450,40 @@ func canonValid(v interface{}) string {
 }
 
 func genCase(t *rapid.T) Case {
-	mode := rapid.IntRange(0, 9).Draw(t, "mode")
+	mode := rapid.IntRange(0, 11).Draw(t, "mode")
 	var v hx.Val
 	switch {
+	case mode == 10: // wide: many sibling containers under one list or map
+		n := rapid.IntRange(20, 300).Draw(t, "wide")
+		any := rapid.Bool().Draw(t, "wideAnyKeys")
+		vs := make([]hx.Val, 0, n)
+		for i := 0; i < n; i++ {
+			vs = append(vs, genValue(t, rapid.IntRange(0, 2).Draw(t, "wd"), any))
+		}
+		if rapid.Bool().Draw(t, "wideMap") {
+			kvs := make([]hx.KV, 0, n)
+			for i, e := range vs {
+				kvs = append(kvs, hx.KV{Key: fmt.Sprintf("k%d", i), V: e})
+			}
+			v = hx.Map(kvs...)
+		} else {
+			v = hx.List(vs...)
+		}
+	case mode == 11: // deep: a chain of containers, each with a sibling or two
+		n := rapid.IntRange(5, 200).Draw(t, "deep")
+		v = genValue(t, 1, false)
+		for i := 0; i < n; i++ {
+			switch rapid.IntRange(0, 3).Draw(t, "wrap") {
+			case 0:
+				v = hx.List(v)
+			case 1:
+				v = hx.List(genScalar(t, false), v, hx.Map())
+			case 2:
+				v = hx.Map(hx.KV{Key: "d", V: v})
+			default:
+				v = hx.Map(hx.KV{Key: "a", V: hx.List()}, hx.KV{Key: "d", V: v}, hx.KV{Key: "z", V: genScalar(t, false)})
+			}
+		}
 	case mode == 0: // invalid UTF-8 string class (JSON clause only)
 		bs := rapid.SliceOfN(rapid.Byte(), 1, 8).Draw(t, "raw")
 		s := "a" + string(bs) + "\xff\"z"
@@ -480,7 +514,8 @@ func classify(c Case, tr traits) (nt bool, classes []string) {
 	}
 	for name, on := range map[string]bool{"escape": tr.escape, "adjacent-containers": tr.adjacent, "empty-container": tr.emptyCont,
 		"non-name-key(json-only)": tr.nonNameKey, "invalid-utf8(json-only)": tr.invalidUTF8, "symbol": tr.symbol, "var": tr.vr,
-		"depth>=2": tr.depth >= 2, "depth>=3": tr.depth >= 3} {
+		"depth>=2": tr.depth >= 2, "depth>=3": tr.depth >= 3, "depth>=32": tr.depth >= 32, "depth>=100": tr.depth >= 100,
+		"containers>=64": tr.containers >= 64} {
 		if on {
 			classes = append(classes, name)
 		}
